@@ -59,14 +59,14 @@ func genC15() *rapid.Generator[prog.Program] {
 		EditOps: []string{"tstyle", "tstyle", "tstyle", "cinc"}, SchedOps: []string{"undo", "undo", "undo", "redo", "redo", "round"}, SyncWeight: 4, OfflineBias: true,
 	})
 	return rapid.Custom(func(t *rapid.T) prog.Program {
-		if rapid.IntRange(0, 7).Draw(t, "styleonly") == 0 {
+		if rapid.IntRange(0, 11).Draw(t, "styleonly") == 0 {
 			p := styleonly.Draw(t, "p")
 			p.Steps = append(append([]prog.Step{}, c15Base...), p.Steps...)
 			p.Cfg.Flags = map[string]int{"styleonly": 1}
 			p.Cfg.ClientNoGC = rapid.IntRange(0, 2).Draw(t, "nogc") == 0
 			return p
 		}
-		if rapid.IntRange(0, 3).Draw(t, "serial") == 0 {
+		if rapid.IntRange(0, 4).Draw(t, "serial") == 0 {
 			p := serial.Draw(t, "p")
 			p.Steps = append(append([]prog.Step{}, c15Base...), p.Steps...)
 			// directed episodes: X makes a multi-operation update that starts
@@ -118,7 +118,7 @@ func genC15() *rapid.Generator[prog.Program] {
 			}
 			p.Steps = steps
 		}
-		if rapid.IntRange(0, 3).Draw(t, "staggered") == 0 {
+		if rapid.IntRange(0, 2).Draw(t, "staggered") == 0 {
 			// Stratum "undo on replicas in different purge states": client 0 is
 			// the only writer of the text / the tree; it makes a few edits
 			// (incl. styles, so that deleted ranges cover nodes with different
@@ -126,9 +126,18 @@ func genC15() *rapid.Generator[prog.Program] {
 			// what client 0 deleted, client 0 still holds it); client 0 then
 			// undoes / redoes and pushes; more rounds in between.
 			kind := rapid.IntRange(0, 1).Draw(t, "kind")
-			pool := [][]string{{"tedit", "tedit", "tedit", "tstyle"}, {"trtext", "trtext", "trdel", "trins", "trstyle"}}[kind]
+			pool := [][]string{{"tedit", "tedit", "tedit", "tstyle", "tstyle"}, {"trtext", "trtext", "trdel", "trins", "trstyle"}}[kind]
 			steps := append([]prog.Step{}, c15Base...)
 			for episode := rapid.IntRange(1, 2).Draw(t, "episodes"); episode > 0; episode-- {
+				if kind == 0 && rapid.Bool().Draw(t, "mixedattrs") {
+					// a removed range that covers pieces with DIFFERENT attributes and
+					// keeps live neighbours of the same insertion on both sides
+					at := rapid.IntRange(0, 2).Draw(t, "at")
+					steps = append(steps,
+						prog.Step{Who: 0, Op: "tstyle", A: at, B: 1, C: rapid.IntRange(0, 3).Draw(t, "s1") * 2},
+						prog.Step{Who: 0, Op: "tstyle", A: at + 1, B: 1, C: rapid.IntRange(0, 3).Draw(t, "s2")*2 + 1},
+						prog.Step{Who: 0, Op: "tedit", A: at, B: 2, C: 0})
+				}
 				for i := rapid.IntRange(2, 5).Draw(t, "edits"); i > 0; i-- {
 					steps = append(steps, prog.Step{Who: 0, Op: rapid.SampledFrom(pool).Draw(t, "op"),
 						A: rapid.IntRange(0, 7).Draw(t, "a"), B: rapid.IntRange(0, 7).Draw(t, "b"), C: rapid.IntRange(0, 8).Draw(t, "c")})
